@@ -522,7 +522,7 @@ def isolation(report, db, cg, S, M, rule_id='R01.3'):
     packet_ci = db.get_class(PACKET, 'Packet')
     raw = set()
     for f in db.funcs:
-        if f.module is rp.module:
+        if f.module is rp.module or f.module is pb.module:
             raw |= set(id(n) for n in raw_reads(db, cg, f, type_ci,
                                                 packet_ci))
     res = reassembly.analyse(S, rp, raw, pb)
